@@ -48,6 +48,8 @@ func sessionEmissions(s *Sem, kind string) []emissionSite {
 func c07(r *Report, s *Sem) {
 	p := r.P
 	a := s.anchors()
+	defer r.Import(s, "C03", "R2", "R13", "established only after a known role: the establishing call is dominated by the edges Role != \"\" and Role != unknown of the callback's result (a zero-value result, or one that only asks for a round trip, must not establish)", 12)
+	defer r.Import(s, "C09", "R3", "R14", "protocol order of the negotiation: the confirmation is emitted before the transport is switched — every success path from the confirmation passes SetCompression/SetEncryption afterwards, never before", 4)
 	defer r.Import(s, "C14", "R1", "R12", "fail closed: when establishment returns an error or the channel is not established, the serving function releases the connection on every path that does not enter the dispatch loop — nothing (no callback, no finished envelope) follows a failed handshake", 2)
 	R1 := r.Rule("R1", "every session envelope a server channel emits carries ID ← channel.sessionID, From ← channel.localNode and a constant State; those two fields of a server channel are stored only by its constructor, from parameters it checks", 21)
 	R2 := r.Rule("R2", "emission automaton (extracted by abstract interpretation over the 7 session states, interprocedurally): a non-terminal envelope is emitted only while the channel's visible state equals the announced state; each emitting function is entered only from states that precede what it announces (protocol order); terminal envelopes only from established (finished) or a non-terminal state (failed)", 24)
